@@ -128,7 +128,15 @@ def option_variation_slice(prop, tier, seed, modes=None, gen_kw=None, **extra):
             continue
         # every variation for every property: one allowed mode each (rotating with seed and property) at the quick tier,
         # every allowed mode at the thorough tier
-        take = group if tier != "quick" else [group[(j + seed + i) % len(group)]]
+        if tier != "quick":
+            take = group
+        elif opt[1] in ("flip", "set"):
+            # booleans / explicit values: the deterministic mode (when allowed) AND one noisy mode
+            dets = [c for c in group if c["spec"]["noise"]["mode"] == "det"]
+            nois = [c for c in group if c["spec"]["noise"]["mode"] != "det"]
+            take = dets[:1] + ([nois[(j + seed + i) % len(nois)]] if nois else [])
+        else:
+            take = [group[(j + seed + i) % len(group)]]
         for c in take:
             out.append(dict({"spec": c["spec"], "optvar": c["option"]}, **extra))
     return out
